@@ -53,6 +53,12 @@ class D:
     b: typing.List[int] = dataclasses.field(default_factory=list)
 
 
+@dataclasses.dataclass(slots=True)
+class DS:
+    a: int
+    b: typing.List[int] = dataclasses.field(default_factory=list)
+
+
 def _dep_value() -> str:
     return "FROM-DEPENDENCY"
 
@@ -83,7 +89,7 @@ VALUE = st.one_of(
     AMBIG, AMBIG, JSONV,
     st.tuples(st.just("M"), st.integers(-5, 5), st.text(alphabet="abc", max_size=3)).map(list),
     st.tuples(st.just("M1"), st.integers(-5, 5)).map(list),
-    st.tuples(st.just("D"), st.integers(-5, 5), st.lists(st.integers(0, 3), max_size=2)).map(list),
+    st.tuples(st.sampled_from(["D", "D+", "DS"]), st.integers(-5, 5), st.lists(st.integers(0, 3), max_size=2)).map(list),
     st.lists(st.integers(0, 9), max_size=3), st.dictionaries(st.text(alphabet="abk", max_size=2), st.integers(0, 9), max_size=2))
 
 
@@ -128,6 +134,12 @@ def mkval(v: Any) -> Any:
         return M(x=v[1], y=v[2])
     if isinstance(v, list) and len(v) == 3 and v[0] == "D" and isinstance(v[1], int) and isinstance(v[2], list):
         return D(a=v[1], b=list(v[2]))
+    if isinstance(v, list) and len(v) == 3 and v[0] == "D+" and isinstance(v[1], int) and isinstance(v[2], list):
+        d = D(a=v[1], b=list(v[2]))
+        d.cached_total = sum(d.b) + d.a      # type: ignore[attr-defined]  # instance state that is not a dataclass field (a cached value)
+        return d
+    if isinstance(v, list) and len(v) == 3 and v[0] == "DS" and isinstance(v[1], int) and isinstance(v[2], list):
+        return DS(a=v[1], b=list(v[2]))     # a slots dataclass: no instance __dict__
     return v
 
 
@@ -135,8 +147,8 @@ def wire(v: Any) -> Any:
     v = mkval(v)
     if isinstance(v, M):
         return v.model_dump()
-    if isinstance(v, D):
-        return dataclasses.asdict(v)
+    if isinstance(v, (D, DS)):
+        return dataclasses.asdict(v)      # "dataclasses in their dict form": the fields, nothing else
     return v
 
 
